@@ -346,8 +346,11 @@ func (r *realm) onLeave(sess *wamp.Session, shutdown, killAll bool) {
 		// If realm is shutdown, do not bother to remove session from broker
 		// and dealer. They will be closed after sessions are closed.
 		if !shutdown {
-			r.dealer.removeSession(sess)
+			// Remove the subscriptions first, so that the meta events about
+			// the session's registrations are not delivered to the session
+			// that is leaving.
 			r.broker.removeSession(sess)
+			r.dealer.removeSession(sess)
 		}
 		close(sync)
 	}
